@@ -38,6 +38,9 @@ pub enum IdEdit {
     InsertTyped(u16, u8, u8),
     /// txs_replacements of an existing transaction changed
     MutateTxReplacements(u16, u8),
+    /// an input of a transaction re-pointed to another spendable output of the same owner with the
+    /// same amount, slip index and type (created by a different transaction)
+    RepointInput(u16),
     /// control: no edit at all (must be accepted)
     Identity,
 }
@@ -182,6 +185,7 @@ fn apply(orig: &Block, e: &IdEdit) -> Option<(Block, bool, bool)> {
             t.sign(&key(3).1);
             b.transactions.insert(pick(*s, n + 1), t);
         }
+        IdEdit::RepointInput(_) => return None, // needs the replica's ledger: applied by judge_edits
         IdEdit::MutateTxReplacements(s, r) => {
             if n == 0 {
                 return None;
@@ -250,6 +254,41 @@ pub struct Info {
     pub state_wrap: bool,
 }
 
+/// Re-points one value input of one user transaction of `b` to another spendable output of the same
+/// owner with the same amount, slip index and type that a different transaction created.
+fn repoint(orig: &Block, node: &Node, sel: u16) -> Option<(Block, bool, bool)> {
+    use saito_core::core::consensus::transaction::TransactionType;
+    let mut b = Block::deserialize_from_net(&orig.serialize_for_net(BlockType::Full)).ok()?;
+    let mut cands = vec![];
+    for (ti, t) in b.transactions.iter().enumerate() {
+        if t.transaction_type != TransactionType::Normal {
+            continue;
+        }
+        for (ii, s) in t.from.iter().enumerate() {
+            if s.amount == 0 {
+                continue;
+            }
+            for alt in node.spendable_of(&s.public_key, orig.id) {
+                let used = orig.transactions.iter().any(|x| x.from.iter().any(|y| y.amount > 0 && y.block_id == alt.block_id && y.tx_ordinal == alt.tx_ordinal && y.slip_index == alt.slip_index && y.public_key == alt.public_key));
+                if !used && alt.amount == s.amount && alt.slip_index == s.slip_index && alt.slip_type == s.slip_type && (alt.block_id, alt.tx_ordinal) != (s.block_id, s.tx_ordinal) {
+                    cands.push((ti, ii, alt));
+                }
+            }
+        }
+    }
+    if cands.is_empty() {
+        return None;
+    }
+    let (ti, ii, alt) = cands[pick(sel, cands.len())].clone();
+    b.transactions[ti].from[ii].block_id = alt.block_id;
+    b.transactions[ti].from[ii].tx_ordinal = alt.tx_ordinal;
+    let mut e2 = Block::deserialize_from_net(&b.serialize_for_net(BlockType::Full)).ok()?;
+    e2.created_hashmap_of_slips_spent_this_block = true;
+    let _ = e2.generate();
+    e2.created_hashmap_of_slips_spent_this_block = false;
+    Some((e2, false, true))
+}
+
 /// Offers every edit of `b` to a replica produced by `make_replica` (a node for which the unedited
 /// `b` is the next acceptable block). `state` names the replica's state in keys and messages.
 fn judge_edits(b: &Block, edits: &[IdEdit], state: &str, make_replica: &dyn Fn() -> Option<Deliverer>, info: &mut Info, v: &mut Vec<(String, String)>) {
@@ -277,7 +316,8 @@ fn judge_edits(b: &Block, edits: &[IdEdit], state: &str, make_replica: &dyn Fn()
     };
     let sfx = if state == "full" { String::new() } else { format!("|state={state}") };
     for e in edits {
-        let (eb, resigned, asserted) = match apply(b, e) {
+        let applied = if let IdEdit::RepointInput(sel) = e { repoint(b, &d.node, *sel) } else { apply(b, e) };
+        let (eb, resigned, asserted) = match applied {
             Some(x) => x,
             None => {
                 info.discarded += 1;
@@ -300,10 +340,22 @@ fn judge_edits(b: &Block, edits: &[IdEdit], state: &str, make_replica: &dyn Fn()
         }
         let (out, _) = guarded_add(&mut d.node, eb.clone(), 64);
         let accepted = out.accepted();
+        if std::env::var("VERIF_TRACE").is_ok() {
+            let show = |x: &Block| x.transactions.iter().map(|t| format!("{}:{}:{} from {:?} to {:?}", tx_type_name(t.transaction_type), hx(&t.hash_for_signature.unwrap_or([0; 32])), hx(&t.signature), t.from.iter().map(|s| (s.block_id, s.tx_ordinal, s.slip_index, s.amount)).collect::<Vec<_>>(), t.to.iter().map(|s| (s.block_id, s.tx_ordinal, s.slip_index, s.amount)).collect::<Vec<_>>())).collect::<Vec<_>>();
+            eprintln!("edit {:?} state {} -> {}\n  original {:?}\n  edited   {:?}", e, state, out.name(), show(b), show(&eb));
+        }
         if let StepOutcome::Panicked(site, msg) = &out {
             v.push((format!("C06|edit={}|panic={}{}", name, site, sfx), format!("add_block panicked at {} on edit {:?} ({} replica): {}", site, e, state, msg)));
         }
-        if accepted && same_hash && !same_txs {
+        // the two lists carry the same transaction hashes in the same order, yet differ: the
+        // difference sits in fields the transaction hash does not cover
+        let same_tx_hashes = eb.transactions.len() == b.transactions.len() && eb.transactions.iter().zip(&b.transactions).all(|(x, y)| x.hash_for_signature == y.hash_for_signature && x.signature == y.signature);
+        if accepted && same_hash && !same_txs && same_tx_hashes {
+            v.push((
+                "C06|same_hash_different_txs|differs_only_outside_tx_hash".to_string(),
+                format!("a block with hash {} whose transactions spend different outputs than the signed ones (same transaction hashes and signatures) was accepted by the {} replica (edit {:?})", hx(&b.hash), state, e),
+            ));
+        } else if accepted && same_hash && !same_txs {
             v.push((
                 format!("C06|same_hash_different_txs|edit={}{}", name, sfx),
                 format!("a block with hash {} but a different transaction list ({} vs {} txs) was accepted by the {} replica (edit {:?})", hx(&b.hash), eb.transactions.len(), b.transactions.len(), state, e),
@@ -420,6 +472,7 @@ pub fn arb_edit() -> impl Strategy<Value = IdEdit> {
         (any::<u16>(), any::<u8>(), any::<u8>()).prop_map(|(s, t, r)| IdEdit::InsertTyped(s, t, r)),
         (any::<u16>(), any::<u8>(), any::<u8>()).prop_map(|(s, t, r)| IdEdit::InsertTyped(s, t, r)),
         (any::<u16>(), any::<u8>()).prop_map(|(s, r)| IdEdit::MutateTxReplacements(s, r)),
+        any::<u16>().prop_map(IdEdit::RepointInput),
         (0u8..SIGNED_FIELDS as u8).prop_map(IdEdit::HeaderSigned),
         (0u8..UNSIGNED_FIELDS as u8).prop_map(IdEdit::HeaderUnsigned),
         any::<u16>().prop_map(IdEdit::MerkleOfEdited),
@@ -447,7 +500,42 @@ pub fn arb_case(max_blocks: usize) -> impl Strategy<Value = Case> {
 }
 
 pub fn run(ctx: &mut Ctx) {
-    ctx.rule = "a valid block B (usually >= 2 transactions; golden ticket, fee and rebroadcast transactions included) at the tip of a generated honest history (gp 4..100, before/after the window wraps) and 6..14 edits from {remove, duplicate, swap, add, replace a transaction; mutate a transaction's amount / payload / timestamp; change one of 14 signed header fields without re-signing; change one of 12 unsigned header fields; edit the list and set the merkle root accordingly without re-signing; zero the merkle root; flip a signature bit; change the creator with and without re-signing}; each edited block crosses the wire format and is offered to a replica at B's parent. oracle: same hash and different transaction list => not accepted; any edit not re-signed by the stated creator (and touching transactions or signed fields) => not accepted; re-signed by another creator => different hash; the unedited round-tripped B => accepted. evaluations = edited blocks offered. non-trivial = edit changes the transaction list or a signed header field; distinct = (edit kind, tx-count bucket, state class, history bucket)".into();
+    ctx.rule = "a valid block B (usually >= 2 transactions; golden ticket, fee and rebroadcast transactions included) at the tip of a generated honest history (gp 4..100, before/after the window wraps) and 6..14 edits from {remove, duplicate, swap, add, replace a transaction; mutate a transaction's amount / payload / timestamp; change one of 14 signed header fields without re-signing; change one of 12 unsigned header fields; edit the list and set the merkle root accordingly without re-signing; zero the merkle root; flip a signature bit; change the creator with and without re-signing; insert a slip-less transaction of type SPV/Normal/ATR/Vip with txs_replacements in {0,1,2,7}; change txs_replacements; re-point an input to another output of the same owner with equal amount, slip index and type}; each edited block crosses the wire format and is offered to a replica holding the chain up to B's parent, to a node that joined mid-chain and holds only B's parent, and (the genesis block) to an empty node; plus directed histories in which the payer owns twin outputs. oracle: same hash and different transaction list => not accepted; any edit not re-signed by the stated creator (and touching transactions or signed fields) => not accepted; re-signed by another creator => different hash; the unedited round-tripped B => accepted. evaluations = edited blocks offered. non-trivial = edit changes the transaction list or a signed header field; distinct = (edit kind, tx-count bucket, state class, history bucket)".into();
+    // directed: the payer owns two outputs that differ only in the transaction that created them
+    // (two equal issuance entries), so that an input can be re-pointed from one to the other
+    for (n_blocks, payer) in [(1usize, 0u8), (3, 0), (3, 1), (5, 1)] {
+        let mut blocks = vec![];
+        for i in 0..n_blocks {
+            blocks.push(BlockSpec {
+                parent: None,
+                dt: 250,
+                gt: i % 2 == 1,
+                creator: 2,
+                miner: 3,
+                txs: if i + 1 == n_blocks {
+                    vec![TxSpec { payer, payee: 3, amount_sel: 30_000, fee: 1_000, routers: vec![], with_path: false, max_inputs: 1, nft: false }]
+                } else {
+                    vec![]
+                },
+                bad_tx: None,
+                corrupt: None,
+                back: None,
+            });
+        }
+        let case = Case {
+            hist: HistSpec {
+                ncfg: NodeCfg::default(),
+                treasury: 0,
+                issuance: vec![(0, 5_000_000), (0, 5_000_000), (1, 7_000_000), (1, 7_000_000), (2, 900_000)],
+                blocks,
+                gt_policy: true,
+            },
+            edits: vec![IdEdit::RepointInput(0), IdEdit::RepointInput(40_000)],
+        };
+        for (k, w) in eval(ctx, &case, true) {
+            ctx.violation(&k, w, json!({"check": "twin_outputs", "case": case}));
+        }
+    }
     let cases = ctx.tier.pick(300u32, 10_000);
     pbt_run(ctx, "identity_edits", cases, arb_case(22), |c, case, counting| eval(c, case, counting));
 }
